@@ -182,24 +182,32 @@ theorem per_qubit_attribution {ms : Option Nat} {c : ChanState} (h : ChanInv ms 
     (∀ w, (k, w) ∈ attribAt (chanInstrs allLocal m k (c.view weights)) c.cfg.basis (some q) t →
       w = (if c.cfg.isDmm then weights.getD q 0 else 1)) := by
   have ok := psOk_of_inv h
-  obtain ⟨wA, s', hs', wB⟩ := ptSlots_window c (x := ⟨i, s, p⟩) h1 h2 ok.sorted ok.le hs.mem
+  obtain ⟨wA, sw, hsw, wB⟩ := slotWindows_window c (c.view weights).openEom (x := ⟨i, s, p⟩) h1 h2
+    ok.sorted ok.le hs.mem
+  have hsw' : sw ∈ slotWindows (c.view weights).openEom (c.view weights).slots := hsw
   refine ⟨amp_unique h hs h1 h2, det_unique h hs h1 h2, ?_, ?_⟩
   · constructor
     · rintro ⟨w, hw⟩
-      obtain ⟨_, _, _, s'', hs'', hq, e1, e2⟩ := (mem_attrib_local hb).mp hw
-      have hti : s''.ti ≤ t := by
-        split at e1
-        · omega
-        · exact e1
-      obtain ⟨_, htg⟩ := wA s'' hs'' hti e2
-      refine ⟨by rw [← htg]; exact hq, ?_⟩
-      rintro ⟨hx, hm, hlt⟩
-      have : ((c.view weights).basis == Basis.xy && m.targets.contains q) = true := by
-        simp [ChanState.view, hx, hm]
-      rw [if_pos this] at e1
-      omega
+      obtain ⟨_, _, _, hcase⟩ := (mem_attrib_local hb).mp hw
+      rcases hcase with ⟨sw'', hs'', hq, e1, e2⟩ | ⟨he, _⟩
+      · have hti : sw''.1.ti ≤ t := by
+          split at e1
+          · omega
+          · exact e1
+        obtain ⟨_, htg⟩ := wA sw'' hs'' hti e2
+        refine ⟨by rw [← htg]; exact hq, ?_⟩
+        rintro ⟨hx, hm, hlt⟩
+        have : ((c.view weights).basis == Basis.xy && m.targets.contains q) = true := by
+          simp [ChanState.view, hx, hm]
+        rw [if_pos this] at e1
+        omega
+      · -- the channel has a pulse slot, so the "no pulse at all" case does not apply
+        have hmem := mem_slotWindows hsw'
+        cases hsl : (c.view weights).slots with
+        | nil => rw [hsl] at hmem; cases hmem
+        | cons a r => rw [hsl] at he; cases he
     · rintro ⟨hq, hmask⟩
-      refine ⟨_, (mem_attrib_local hb).mpr ⟨rfl, rfl, rfl, s', hs', by rw [wB.2.1]; exact hq, ?_, wB.2.2⟩⟩
+      refine ⟨_, (mem_attrib_local hb).mpr ⟨rfl, rfl, rfl, .inl ⟨sw, hsw', by rw [wB.2.1]; exact hq, ?_, wB.2.2⟩⟩⟩
       split
       · rename_i hc
         have hc' : c.cfg.basis = .xy ∧ q ∈ m.targets := by
@@ -210,6 +218,64 @@ theorem per_qubit_attribution {ms : Option Nat} {c : ChanState} (h : ChanInv ms 
   · intro w hw
     obtain ⟨_, _, e, _⟩ := (mem_attrib_local hb).mp hw
     rw [e]; rfl
+
+/-- **A channel left in EOM mode keeps its last targets until the end** (Local channel, DMM or
+`all_local`): after the start of its last pulse-target slot, the channel's samples — beyond
+its own duration these are the padding of `extend_pads`: amplitude 0, detuning the
+off-detuning, last phase — keep being added to the entries of exactly the targets of that
+slot, whatever the time; for a channel that is not in EOM mode the slot ends at its `tf`. -/
+theorem eom_tail_attribution (allLocal : Bool) (m : SlmMask) (k : Nat) (v : ChanView)
+    (hb : v.globalBranch allLocal = false) (pre : List PTSlot) (last : PTSlot)
+    (hsl : v.slots = pre ++ [last]) (hxy : v.basis ≠ .xy) (q : Nat) (t : Int) (ht : last.ti ≤ t)
+    (hpre : ∀ s ∈ pre, s.tf ≤ last.ti) :
+    ((∃ w, (k, w) ∈ attribAt (chanInstrs allLocal m k v) v.basis (some q) t) ↔
+      (q ∈ last.targets ∧ (v.openEom = true ∨ t < last.tf))) := by
+  have hx : (v.basis == Basis.xy) = false := by simpa using hxy
+  have hwin : ∀ sw, sw ∈ slotWindows v.openEom v.slots ↔
+      ((sw ∈ pre.map fun s => (s, some s.tf)) ∨ sw = (last, if v.openEom then none else some last.tf)) := by
+    intro sw
+    rw [hsl]
+    clear hsl hpre
+    induction pre with
+    | nil => simp [slotWindows]
+    | cons a r ih =>
+      rw [List.cons_append, slotWindows_cons]
+      have : (r ++ [last]).isEmpty = false := by cases r <;> rfl
+      simp only [this, Bool.false_and, Bool.false_eq_true, if_false, List.mem_cons, List.map_cons, ih]
+      constructor
+      · rintro (h | h | h)
+        · exact .inl (.inl h)
+        · exact .inl (.inr h)
+        · exact .inr h
+      · rintro ((h | h) | h)
+        · exact .inl h
+        · exact .inr (.inl h)
+        · exact .inr (.inr h)
+  constructor
+  · rintro ⟨w, hw⟩
+    obtain ⟨_, _, _, hcase⟩ := (mem_attrib_local hb).mp hw
+    rcases hcase with ⟨sw, hs, hq, e1, e2⟩ | ⟨he, _⟩
+    · simp only [hx, Bool.false_and, Bool.false_eq_true, if_false] at e1
+      rcases (hwin sw).mp hs with hp | rfl
+      · obtain ⟨s, hs', rfl⟩ := List.mem_map.mp hp
+        have := hpre s hs'
+        have e2' : t < s.tf := e2
+        omega
+      · refine ⟨hq, ?_⟩
+        by_cases ho : v.openEom = true
+        · exact .inl ho
+        · right
+          simp only [ho, Bool.false_eq_true, if_false] at e2
+          exact e2
+    · rw [hsl] at he; cases pre <;> cases he
+  · rintro ⟨hq, ho⟩
+    refine ⟨_, (mem_attrib_local hb).mpr ⟨rfl, rfl, rfl, .inl ⟨_, (hwin _).mpr (.inr rfl), hq, ?_, ?_⟩⟩⟩
+    · simp only [hx, Bool.false_and, Bool.false_eq_true, if_false]; exact ht
+    · rcases ho with ho | ho
+      · simp only [ho, if_true]; trivial
+      · split
+        · trivial
+        · exact ho
 
 /-- **Per-atom attribution (Global channel, not `all_local`)**: the channel's samples are
 added to the `Global` entry of its basis — i.e. to every atom — at every time from `start_t`
@@ -372,6 +438,21 @@ example : (exL.view []).globalBranch false = false ∧
     attribAt (chanInstrs false {} 1 (exL.view [])) .digital (some 0) 30 = [] ∧
     attribAt (chanInstrs false {} 1 (exL.view [])) .digital (some 0) 10 = [(1, 1)] ∧
     ampAt exL 30 = [(3, 10)] := by decide +kernel
+/-- eom_tail_attribution: the local channel's last slot is [20, 44) on atom 1; left in EOM mode it
+keeps feeding atom 1 (and only atom 1) afterwards, otherwise it stops at 44. -/
+example :
+    let v := exL.view []
+    let vo : ChanView := { v with openEom := true }
+    v.slots.map (fun s => (s.ti, s.tf, s.targets)) = [(0, 20, [0, 2]), (20, 44, [1])] ∧
+    attribAt (chanInstrs false {} 1 v) .digital (some 1) 500 = [] ∧
+    attribAt (chanInstrs false {} 1 vo) .digital (some 1) 500 = [(1, 1)] ∧
+    attribAt (chanInstrs false {} 1 vo) .digital (some 0) 500 = [] ∧
+    attribAt (chanInstrs false {} 1 vo) .digital (some 0) 10 = [(1, 1)] := by decide +kernel
+/-- … and a channel without pulses that is left in EOM mode feeds its last targets throughout. -/
+example :
+    let vo : ChanView := { (exL.view []) with slots := [], openEom := true, lastTargets := [1] }
+    attribAt (chanInstrs false {} 1 vo) .digital (some 1) 7 = [(1, 1)] ∧
+    attribAt (chanInstrs false {} 1 vo) .digital (some 0) 7 = [] := by decide +kernel
 /-- global_attribution: the global channel goes to `Global` (no mask), and under `all_local` to each atom. -/
 example : (exG.view []).globalBranch false = true ∧
     attribAt (nestedInstrs false {} [exG.view [], exL.view []]) .groundRydberg none 550 = [(0, 1)] ∧
